@@ -81,9 +81,14 @@ type caseSpec struct {
 	failKind string // code | eof | badid | trunc
 	badCreds string // how the broker reports bad credentials: code | challenge
 	refSrv   string // xdg | stdlib (SCRAM reference server)
+	impostor bool   // stdlib SCRAM server that accepts any proof and forges the server signature
 	wrongCreds bool // the credential table says the pair is wrong (after normalisation)
 	addr     string // address to dial ("" = broker1:9092); a non-numeric port makes splitHostPortNumber fail
+	tlsFail  bool   // the peer answers the ClientHello with something that is not TLS: the dial must fail and close its socket
+	tls      bool   // Dialer.TLS / Transport.TLS set: the fake broker sits behind TLS and notes what reaches its socket first
 }
+
+var errHung = errors.New("hung: the dial did not return within 2 s (its time limit was 400 ms)")
 
 func (c caseSpec) address() string {
 	if c.addr == "" {
@@ -182,6 +187,8 @@ func buildMech(c caseSpec) (sasl.Mechanism, error) {
 
 var apiRanges = [][3]int16{{18, 0, 2}, {3, 1, 1}, {10, 0, 0}, {2, 1, 1}}
 
+func be32c(v uint32) []byte { return []byte{byte(v >> 24), byte(v >> 16), byte(v >> 8), byte(v)} }
+
 func rangeStr(r *[2]int16) string {
 	if r == nil {
 		return "none"
@@ -220,6 +227,28 @@ func serve(conn net.Conn, c caseSpec, lg *connLog) {
 			}
 			conn.Write(good[:len(good)/2+2])
 			return true
+		case "neglen":
+			// a malformed answer: the length prefix of the frame is negative (raw exchange: the whole "frame" is
+			// that prefix; framed: the size field of the response)
+			lg.addEnv("IOERR")
+			conn.Write([]byte{0xff, 0xff, 0xff, 0xff})
+			return false
+		case "silent":
+			// the broker stops answering and keeps the connection open: the pending read of the client can only end by
+			// the dial's own time limit.  Watch for 2.5 s whether the client closes its end.
+			lg.addEnv("IOERR")
+			conn.SetReadDeadline(time.Now().Add(2500 * time.Millisecond))
+			buf := make([]byte, 4096)
+			for {
+				if _, err := conn.Read(buf); err != nil {
+					var ne net.Error
+					if errors.As(err, &ne) && ne.Timeout() {
+						idleExit = true // the client never closed: `closed` stays false
+					}
+					break
+				}
+			}
+			return true
 		case "badid":
 			lg.addEnv("IOERR")
 			b := append([]byte(nil), good...)
@@ -246,6 +275,14 @@ func serve(conn net.Conn, c caseSpec, lg *connLog) {
 			if c.failKind == "code" && framed {
 				lg.addEnv("R:58:-:0")
 				conn.Write(reply(58, nil))
+				return false
+			}
+			if c.failKind == "neglen" && framed {
+				// a 4-byte negative size is not even a complete frame header: for framed answers use the wrong-id frame
+				lg.addEnv("IOERR")
+				b := reply(0, []byte{1, 2, 3, 4, 5, 6})
+				b[4+3] ^= 0x55
+				conn.Write(b)
 				return false
 			}
 			if c.failKind != "code" && !(c.failKind == "badid" && !framed) {
@@ -286,7 +323,7 @@ func serve(conn net.Conn, c caseSpec, lg *connLog) {
 		if err != nil {
 			var ne net.Error
 			if errors.As(err, &ne) && ne.Timeout() {
-				lg.addEnv("EOF")
+				lg.addEnv("IDLE") // an EOF for the client, caused by the harness giving up on a silent peer (a hang, or a very slow machine)
 				idleExit = true
 			}
 			return
@@ -327,6 +364,13 @@ func serve(conn net.Conn, c caseSpec, lg *connLog) {
 			b, err := muxfake.Encode(0, h.Corr, res)
 			if err != nil {
 				panic(err)
+			}
+			if c.failAt == "versions" && c.failKind == "negcount" {
+				// a malformed ApiVersions answer: the array of api keys announces a negative number of entries
+				lg.addEnv("IOERR")
+				body := append(be32c(uint32(h.Corr)), 0, 0, 0xff, 0xff, 0xff, 0xfe) // -2: -1 would be a null array, which is well formed
+				conn.Write(append(be32c(uint32(len(body))), body...))
+				continue
 			}
 			if c.failAt == "versions" && c.failKind != "code" {
 				if fail(b, 4, true) {
@@ -404,6 +448,12 @@ func errClass(err error) string {
 	if err == nil {
 		return "ok"
 	}
+	if strings.HasPrefix(err.Error(), "panic: ") {
+		return "panic"
+	}
+	if errors.Is(err, errHung) {
+		return "hung"
+	}
 	var ke kafka.Error
 	if errors.As(err, &ke) {
 		return fmt.Sprintf("err:kafka:%d", int(ke))
@@ -436,7 +486,11 @@ func runCase(c caseSpec) (res caseResult, skip string) {
 		res.logs = append(res.logs, lg)
 		cur = lg
 		mu.Unlock()
-		go serve(sv, c, lg)
+		if c.tls {
+			go serveTLS(sv, c, lg)
+		} else {
+			go serve(sv, c, lg)
+		}
 		return cl, nil
 	}
 	var mech sasl.Mechanism
@@ -451,7 +505,7 @@ func runCase(c caseSpec) (res caseResult, skip string) {
 			// a failed dial closes its connection before it returns: the broker's read ends at once
 			select {
 			case <-lg.done:
-			case <-time.After(300 * time.Millisecond):
+			case <-time.After(1200 * time.Millisecond):
 			}
 		}
 		return lg.isClosed()
@@ -459,7 +513,42 @@ func runCase(c caseSpec) (res caseResult, skip string) {
 
 	if c.path == "dialer" {
 		d := &kafka.Dialer{DialFunc: dial, SASLMechanism: mech, ClientID: "c18"}
-		conn, err := d.DialContext(ctx, "tcp", c.address())
+		if c.failKind == "silent" {
+			d.Timeout = 400 * time.Millisecond
+		}
+		if c.tls {
+			d.TLS = clientTLS()
+		}
+		var conn *kafka.Conn
+		var err error
+		func() {
+			// a malformed answer must make the dial FAIL, not crash the caller
+			defer func() {
+				if p := recover(); p != nil {
+					err = fmt.Errorf("panic: %v", p)
+				}
+			}()
+			if c.failKind != "silent" {
+				conn, err = d.DialContext(ctx, "tcp", c.address())
+				return
+			}
+			// the dial has 400 ms (Dialer.Timeout); it gets 2 s before the harness calls it hung
+			type dialRes struct {
+				conn *kafka.Conn
+				err  error
+			}
+			ch := make(chan dialRes, 1)
+			go func() {
+				cn, e := d.DialContext(ctx, "tcp", c.address())
+				ch <- dialRes{cn, e}
+			}()
+			select {
+			case r := <-ch:
+				conn, err = r.conn, r.err
+			case <-time.After(2 * time.Second):
+				err = errHung
+			}
+		}()
 		res.final = errClass(err)
 		if err == nil {
 			conn.SetDeadline(time.Now().Add(10 * time.Second))
@@ -481,6 +570,15 @@ func runCase(c caseSpec) (res caseResult, skip string) {
 	}
 
 	tr := &kafka.Transport{Dial: dial, SASL: mech, MetadataTTL: 24 * time.Hour, ClientID: "c18"}
+	if c.failKind == "silent" {
+		tr.DialTimeout = 400 * time.Millisecond
+		var cancel2 context.CancelFunc
+		ctx, cancel2 = context.WithTimeout(ctx, 1200*time.Millisecond)
+		defer cancel2()
+	}
+	if c.tls {
+		tr.TLS = clientTLS()
+	}
 	addr := kafka.TCP(c.address())
 	_, err := tr.RoundTrip(ctx, addr, &findcoordinator.Request{Key: "g"})
 	res.final = errClass(err)
@@ -528,6 +626,12 @@ func emitCase(c caseSpec, res caseResult) {
 			cl = 1
 		}
 		path := c.path
+		if c.tls {
+			path += "+tls"
+		}
+		if c.tlsFail {
+			path += "+nohs"
+		}
 		if c.addr != "" {
 			path += "!addr"
 		}
@@ -535,6 +639,13 @@ func emitCase(c caseSpec, res caseResult) {
 		expect := "any"
 		if c.failAt == "" && c.mechFail < 0 && c.addr == "" && c.user == c.srvUser && c.pass == c.srvPass && !(c.hs != nil && c.hs[1] < 0 && c.path == "dialer") && !c.wrongCreds {
 			expect = "ok"
+		}
+		if c.tlsFail {
+			expect = "err" // no TLS on the other side: the dial must fail
+		}
+		if c.impostor && c.failAt == "" && c.mechFail < 0 && c.addr == "" {
+			// mutual authentication: a forged server signature must make the dial fail
+			expect = "err"
 		}
 		fmt.Fprintf(out, "auth %s %d %s %s\t%s;%s;%d\n", path, sasl, env, expect, journal, res.results[i], cl)
 	}
@@ -565,9 +676,24 @@ func main() {
 				cases = append(cases, caseSpec{path: path, hs: hs, au: au, mech: m, user: "alice", pass: "s3cret", srvUser: "alice", srvPass: "s3cret",
 					steps: 1 + r.Intn(4), mechFail: -1, refSrv: "xdg"})
 			}
+			// a broker that claims success without knowing the password (forged `v=`): SCRAM clients must refuse
+			if hs != nil && hs[0] == 0 && hs[1] >= 0 {
+				for _, m := range []string{"scram256", "scram512"} {
+					cases = append(cases, caseSpec{path: path, hs: hs, au: au, mech: m, user: "alice", pass: "s3cret", srvUser: "alice", srvPass: "s3cret",
+						mechFail: -1, refSrv: "stdlib", impostor: true})
+				}
+			}
 			// failure at every step
 			for _, at := range []string{"versions", "handshake", "auth1", "auth2", "auth3"} {
-				for _, kind := range []string{"code", "eof", "badid", "trunc"} {
+				for _, kind := range []string{"code", "eof", "badid", "trunc", "neglen"} {
+					if kind == "neglen" && !strings.HasPrefix(at, "auth") {
+						// the protocol package (Transport path) reads every negative array length as a null array — codec policy,
+						// not an authentication failure — so the malformed count is placed on the Dialer path only
+						kind = "negcount"
+						if at != "versions" || path != "dialer" {
+							continue
+						}
+					}
 					m := []string{"plain", "scram256", "steps"}[r.Intn(3)]
 					if at == "auth2" && m == "plain" {
 						m = "scram512"
@@ -595,6 +721,37 @@ func main() {
 			cases = append(cases, caseSpec{path: path, hs: hsChoices[0], au: hsChoices[0], mech: "plain", user: "u", pass: "p", srvUser: "u", srvPass: "p", mechFail: -1, addr: a})
 		}
 	}
+	// a broker that falls silent in the middle of the set-up and keeps the connection open: the dial must end by its
+	// own time limit (Dialer.Timeout / Transport.DialTimeout = 400 ms), with an error and the connection closed
+	for _, path := range []string{"dialer", "transport"} {
+		for _, hs := range hsChoices {
+			for _, at := range []string{"versions", "handshake", "auth1", "auth2"} {
+				m := "plain"
+				if at == "auth2" {
+					m = "scram256"
+				}
+				cases = append(cases, caseSpec{path: path, hs: hs, au: hsChoices[0], mech: m, user: "bob", pass: "pw", srvUser: "bob", srvPass: "pw",
+					mechFail: -1, failAt: at, failKind: "silent", refSrv: "xdg"})
+			}
+		}
+	}
+	// behind TLS (Dialer.TLS / Transport.TLS): the broker notes what reaches its raw socket first
+	for _, path := range []string{"dialer", "transport"} {
+		for _, hs := range hsChoices {
+			for _, m := range []string{"plain", "scram256", "steps"} {
+				cases = append(cases, caseSpec{path: path, hs: hs, au: hsChoices[0], mech: m, user: "alice", pass: "s3cret", srvUser: "alice", srvPass: "s3cret",
+					steps: 2, mechFail: -1, refSrv: "xdg", tls: true})
+			}
+			cases = append(cases,
+				caseSpec{path: path, hs: hs, au: hsChoices[0], mech: "plain", user: "alice", pass: "wrong", srvUser: "alice", srvPass: "s3cret", mechFail: -1, badCreds: "code", wrongCreds: true, tls: true},
+				caseSpec{path: path, hs: hs, au: hsChoices[0], mech: "plain", user: "bob", pass: "pw", srvUser: "bob", srvPass: "pw", mechFail: -1, failAt: "handshake", failKind: "code", tls: true},
+				caseSpec{path: path, hs: hs, au: hsChoices[0], mech: "steps", steps: 3, mechFail: 0, tls: true})
+		}
+		cases = append(cases, caseSpec{path: path, hs: hsChoices[0], au: hsChoices[0], mech: "plain", user: "u", pass: "p", srvUser: "u", srvPass: "p", mechFail: -1, tls: true, tlsFail: true},
+			caseSpec{path: path, hs: hsChoices[0], au: hsChoices[0], mech: "none", mechFail: -1, tls: true, tlsFail: true})
+		cases = append(cases, caseSpec{path: path, hs: hsChoices[0], au: hsChoices[0], mech: "none", mechFail: -1, tls: true},
+			caseSpec{path: path, hs: hsChoices[0], au: hsChoices[0], mech: "plain", user: "u", pass: "p", srvUser: "u", srvPass: "p", mechFail: -1, addr: "broker1:kafka", tls: true})
+	}
 	_ = thorough
 	leaks := 0
 	for _, c := range cases {
@@ -606,7 +763,7 @@ func main() {
 			continue
 		}
 		for i := range res.results {
-			if res.results[i] != "ok" && !res.closed[i] {
+			if res.results[i] != "ok" && !res.closed[i] && c.failKind != "silent" {
 				leaks++
 			}
 		}
